@@ -72,4 +72,7 @@ void op_chunks (char **tok, int ntok) ;
 int grid_c17 (int argc, char **argv) ;
 int cmd_c03consts (void) ;
 
+/* iolog.c (C15) */
+void op_iolog (char **tok, int ntok) ;
+
 #endif
